@@ -41,3 +41,31 @@ LEAN_CHAINS = [
     ('pyx12.xmlwriter.XMLWriter._escape_cont', [('&', '&amp;'), ('<', '&lt;'), ('>', '&gt;')], 'Escape.cont_chain'),
     ('pyx12.xmlwriter.XMLWriter._escape_attr', [('&', '&amp;'), ("'", '&apos;'), ('<', '&lt;'), ('>', '&gt;')], 'Escape.attr_chain'),
 ]
+
+
+# ---- bounded native safety net (C19 / C08): the three contracts on the real functions, strings of any content up to length 6 ---
+def bounded_escape(seed, tier):
+    """every string over {& < > ' \" space a ; # /} up to length 5 (quick) / 6 (thorough) plus every single code point below 0x3000:
+    the real escaping functions return the character-wise code of the statement"""
+    import itertools
+    import pyx12.error_html
+    import pyx12.xmlwriter
+    alpha = ['&', '<', '>', "'", '"', ' ', 'a', ';', '#', '/']
+    texts = ['']
+    for n in range(1, (5 if tier == 'quick' else 6) + 1):
+        texts += [''.join(t) for t in itertools.product(alpha, repeat=n)]
+    texts += [chr(c) for c in range(0x3000)] + ['x' + chr(c) + 'y' for c in (0x26, 0x3c, 0x3e, 0x27, 0x20, 0xa0, 0x2028, 0x1F600)]
+    w = pyx12.xmlwriter.XMLWriter.__new__(pyx12.xmlwriter.XMLWriter)
+    fails, n = [], 0
+    for t in texts:
+        for name, f, spec in (('escape_html_chars', pyx12.error_html.escape_html_chars, code_html),
+                              ('_escape_cont', w._escape_cont, code_xml_cont), ('_escape_attr', w._escape_attr, code_xml_attr)):
+            n += 1
+            try:
+                got = f(t)
+            except Exception as e:
+                got = 'raised %s' % type(e).__name__
+            if got != spec(t) and len(fails) < 8:
+                fails.append({'input': {'text': t, 'function': name}, 'detail': '%s returned %r, the character code gives %r' % (name, got, spec(t))})
+    return {'function': 'escape_html_chars / XMLWriter._escape_cont / XMLWriter._escape_attr', 'evaluations': n,
+            'bound': '%d strings (10-letter alphabet to length %d, all single code points < 0x3000)' % (len(texts), 5 if tier == 'quick' else 6), 'failures': fails}
